@@ -213,6 +213,11 @@ pub trait QueueApi: Sized + 'static {
     fn to_json(&self) -> Result<String, String>;
     fn from_json(s: &str) -> Result<Self, String>;
 
+    fn deserialize_from<'de, D: serde::Deserializer<'de>>(d: D) -> Result<Self, D::Error>;
+    /// serde_test: the value serializes to exactly these tokens / deserializes from them to an equal value
+    fn assert_ser_tokens(&self, tokens: &[serde_test::Token]);
+    fn assert_de_tokens(&self, tokens: &[serde_test::Token]);
+
     // hook
     fn snapshot(&self) -> Snap;
 
@@ -378,6 +383,15 @@ macro_rules! common_methods {
         }
         fn from_json(s: &str) -> Result<Self, String> {
             serde_json::from_str(s).map_err(|e| e.to_string())
+        }
+        fn deserialize_from<'de, D: serde::Deserializer<'de>>(d: D) -> Result<Self, D::Error> {
+            <Self as serde::Deserialize>::deserialize(d)
+        }
+        fn assert_ser_tokens(&self, tokens: &[serde_test::Token]) {
+            serde_test::assert_ser_tokens(self, tokens)
+        }
+        fn assert_de_tokens(&self, tokens: &[serde_test::Token]) {
+            serde_test::assert_de_tokens(self, tokens)
         }
         fn snapshot(&self) -> Snap {
             Snap::from_hook(self.verif_snapshot())
